@@ -1,11 +1,20 @@
 import UPVerif.Core.ExprSexp
 import UPVerif.Core.Walkers.Substitute
+import UPVerif.Core.DagWalker
 /-!
 Line-protocol handler for C13.
 
   case    ::= (subst <expr> ((<key> <value> T|F)*))     T|F = verdict of `key.type.is_compatible(value.type)`
                                                          computed by the harness on the real types
-  answer  ::= (ok <expr>) | reject | bad-case
+            | (hist (reject <expr>*) <call>*)            a HISTORY of calls on the shared substituter of ONE
+                                                         environment; `reject` = the nodes the real expression
+                                                         manager refuses to build (measured by the harness)
+  call    ::= (subst <expr> ((<key> <value> T|F)*))
+  answer  ::= (ok <expr>) | reject | bad-case            for a single call (pure recursion `substituteChecked`)
+            | (hist <ans>*)                              one answer per call, computed by the stack-and-cache
+                                                         machine `Dag.Env.run` started on a fresh environment
+  ans     ::= (ok <expr>) | reject | undefined | broken  undefined = the walk raised at a refused node;
+                                                         broken = KeyError / out of fuel (never: theorem)
 
 Keys must be pairwise distinct (the Python side passes a dict).
 -/
@@ -24,7 +33,27 @@ def distinctKeys : List (Expr × Expr) → Bool
   | [] => true
   | kv :: r => (r.all (fun kv' => !(decide (kv'.1 = kv.1)))) && distinctKeys r
 
+/-- one call of a history, for `Dag.Env.call` -/
+def parseCall : Sexp → Option Dag.Call
+  | .list [.atom "subst", e, .list ps] => do
+    let x ← parseExpr e
+    let pairs ← ps.mapM parsePair
+    if !distinctKeys (pairs.map (·.1)) then none
+    else some (.subst (pairs.map (fun p => (p.1.1, p.1.2, p.2))) x)
+  | _ => none
+
+def ansOut : Dag.Ans → Sexp
+  | .expr e => .list [.atom "ok", exprToSexp e]
+  | .incompatible => .atom "reject"
+  | .raised _ => .atom "undefined"
+  | _ => .atom "broken"
+
 def handle : Sexp → Sexp
+  | .list (.atom "hist" :: .list (.atom "reject" :: rej) :: calls) =>
+    match rej.mapM parseExpr, calls.mapM parseCall with
+    | some rs, some cs =>
+      .list (.atom "hist" :: (Dag.Env.run (fun n => rs.contains n) Dag.Env.fresh cs).1.map ansOut)
+    | _, _ => .atom "bad-case"
   | .list [.atom "subst", e, .list ps] =>
     match parseExpr e, ps.mapM parsePair with
     | some x, some pairs =>
